@@ -5,6 +5,7 @@ Tie (three-way, every run): histories are executed with the REAL binary (--repla
 at the phase boundaries through the interposer) and after every step (file, backup, md5 file) is compared with
 Backup.step (extracted) and with the operation-level model FsProto.run (extracted)."""
 import os
+import shutil
 import tempfile
 
 from .. import common, fsrun
@@ -213,6 +214,42 @@ def run(rep, build, tier, seed):
         outputs = set()
         w0 = World(U1)
         explore(w0, (U1, None, False, None, U1), (None, None), [], L, True, True)
+        # ---- the digest itself (the model abstracts MD5 as an injective function): files whose formatted size sits on and
+        # around the block boundaries of MD5 (64 bytes) and of the 4096-byte read buffer; the md5 file must hold MD5(FILE),
+        # a second run without an edit keeps the backup, a same-size edit of the last bytes is backed up
+        import hashlib
+        ddir = os.path.join(wd, "digest")
+        cfgd = os.path.join(wd, "d.cfg")
+        open(cfgd, "w").write("")
+        for n in (55, 56, 63, 64, 65, 119, 120, 127, 128, 129, 256, 4095, 4096, 4097, 8192, 9000):
+            shutil.rmtree(ddir, ignore_errors=True)
+            os.makedirs(ddir)
+            fpath = os.path.join(ddir, "f.c")
+            Fn = b"int a;\n/* " + b"x" * (n - 14) + b" */\n"
+            Un = b"int   a;\n/* " + b"x" * (n - 14) + b" */\n"
+            assert len(Fn) == n
+            open(fpath, "wb").write(Un)
+            rd = lambda q: open(q, "rb").read() if os.path.exists(q) else None
+            common.run_unc(["-q", "-c", cfgd, "--replace", fpath])
+            rep.count(key=("digest", n), nontrivial=True)
+            rep.validated()
+            md5f = rd(fpath + ".unc-backup.md5~")
+            if rd(fpath) != Fn:
+                continue                      # the formatter did something unexpected with this text: not the question here
+            if md5f is None or hashlib.md5(Fn).hexdigest().encode() not in md5f.lower():
+                rep.finding("digest|md5-file|%d" % n, "after --replace of a file whose formatted text has %d bytes the md5 file does not hold MD5 of the file: %r" % (n, (md5f or b"")[:40]),
+                            {"kind": "digest", "size": n})
+                continue
+            common.run_unc(["-q", "-c", cfgd, "--replace", fpath])
+            if rd(fpath + ".unc-backup~") != Un:
+                rep.finding("digest|second-run|%d" % n, "a second --replace without any edit replaced the backup of the %d-byte file by uncrustify's own output" % n, {"kind": "digest", "size": n})
+                continue
+            edit = Fn[:-6] + b"y */\n" if False else Fn[:-8] + b"yy" + Fn[-6:]
+            if len(edit) == n and edit != Fn:
+                open(fpath, "wb").write(edit)
+                common.run_unc(["-q", "-c", cfgd, "--replace", fpath])
+                if rd(fpath + ".unc-backup~") != edit:
+                    rep.finding("digest|tail-edit|%d" % n, "a same-size edit in the last bytes of the %d-byte file was not backed up before the next run overwrote it" % n, {"kind": "digest", "size": n})
     m.close()
     if corr and not rep.violations:
         rep.unproved("correspondence Model/Backup.v <-> binary <-> Model/FsProto.v on histories", "first differences: %s" % corr[:3])
